@@ -8,7 +8,7 @@ void reg_isap() {}
 #if 0
 void reg_prng() {}
 #endif
-#ifndef HAVE_DRV_MASKED
+#if 0
 void reg_masked() {}
 #endif
 #if 0
